@@ -66,6 +66,13 @@ def run(facts, res):
         ids = [(bi, t) for bi, t in c.calls() if t.callee is not None and t.callee.name == "new_from_anchors"]
         same = any(contains_call(arg_term(c, t, 1, 30), "get_anchors") and
                    ({x[1] for x in walk(arg_term(c, t, 1, 30)) if x[0] == "var"} & {x[1] for x in walk(pt) if x[0] == "var"}) for bi, t in ids)
+        if not same and from_anchors:
+            ga_ = lambda tt_: {x[3] for x in walk(tt_) if x[0] == "call" and callee_name(x) == "get_anchors"}
+            same = any(ga_(arg_term(c, t, 1, 30)) & ga_(pt) for bi, t in ids)
+        if not same and from_anchors and st.place is not None and not st.place.proj:
+            # the id constructor reads the set back out of the block being built (`&delta.parents`)
+            same = any(x[0] == "field" and x[2] == "parents" and any(y[0] == "var" and y[1] == st.place.local for y in walk(x[1]))
+                       for bi, t in ids for x in walk(arg_term(c, t, 1, 30)))
         stt = status_variant(du.operand_term(st.rv.operands()[f.index("status")], 8))
         res.instance("I1", "commit: Delta.parents derives from get_anchors(): %s; same set feeds DeltaId::new_from_anchors: %s; status %s" % (from_anchors, same, stt), c.loc(st.line))
         if not (from_anchors and same):
@@ -473,6 +480,17 @@ def check_normal_form(facts, res, R):
                                     while c1[0] == "var":
                                         c1 = c1[3]
                                     if c1[0] == "call" and callee_name(c1) == "is_empty":
+                                        writer_nonempty.add(n_)
+                        # `Some(x).filter(|x| !x.is_empty())`: the closure keeps the value only when it is not empty
+                        for y in walk(t):
+                            if y[0] == "call" and callee_name(y) == "filter" and len(y[2]) >= 2 and y[4] is not None and "Option" in y[4].path:
+                                cl_ = next((z for z in walk(y[2][1]) if z[0] == "closure"), None)
+                                cb_ = facts.body(cl_[1]) if cl_ is not None else None
+                                if cb_ is not None:
+                                    rt_ = du_of(cb_).local_term(0, 10)
+                                    while rt_[0] == "var":
+                                        rt_ = rt_[3]
+                                    if rt_[0] == "unop" and rt_[1] == "Not" and contains_call(rt_[2], "is_empty"):
                                         writer_nonempty.add(n_)
                         if contains_call(t, "map") and contains_call(t, R.name("pack_writer")):
                             writer_nonempty.add(n_)   # Option<String> mapped to a one-element set
